@@ -7,6 +7,7 @@ import GoatModel.World
 import GoatModel.Load
 import GoatModel.App
 import GoatModel.Genesis
+import GoatModel.GenesisBtc
 namespace Goat.Driver
 open Goat.Wire Goat.World
 
@@ -205,7 +206,10 @@ def step (d : D) (o : Op) : D × String :=
   | "a.export" =>
     -- does the locking + relayer state survive export → import (GoatModel.Genesis)?  Compared with the real
     -- application's verdict whenever that could be observed (`lrobs=1`)
-    (d, if o.str "lrobs" == "1" then s!"=> ok lr={if Genesis.roundTripOk d.w.lock d.w.rel then 1 else 0}" else "=> ok lr=-")
+    let lr := if o.str "lrobs" == "1" then (if Genesis.roundTripOk d.w.lock d.w.rel then "1" else "0") else "-"
+    -- bitcoin + goat modules (GoatModel.GenesisBtc); traces written before this part of the model existed carry no `brobs`
+    let br := if o.str "brobs" == "1" then (if GenesisBtc.genesisRoundTripOk d.w.rel d.w.btc d.goat then "1" else "0") else "-"
+    (d, if (o.get? "brobs").isSome then s!"=> ok lr={lr} br={br}" else s!"=> ok lr={lr}")
   | "a.process" => (d, "=> " ++ res (processProposal d o))
   | "a.checktx" =>
     -- CheckTx runs the ante chain only.  Before the first commit (height 0) the check state is a branch of
